@@ -66,11 +66,40 @@ def probe_env(op: Op, cfg: Dict[str, Any], seed: int, env: str, draws: int = 2, 
             return probe(op, cfg, seed, draws=draws, gdraws=gdraws)
         finally:
             torch.set_default_dtype(old)
+    if env in ("noncontiguous", "expanded_batch"):
+        return probe(op, cfg, seed, draws=draws, gdraws=gdraws, layout=env)
     with contextlib.nullcontext():
         return probe(op, cfg, seed, draws=draws, gdraws=gdraws)
 
 
-def probe(op: Op, cfg: Dict[str, Any], seed: int, draws: int = 2, gdraws: int = 2) -> Dict[str, Any]:
+def relayout(t: Dict[str, Any], layout: str) -> Dict[str, Any]:
+    """same values, different memory layout: non-contiguous (transposed storage / strided) or a
+    stride-0 expanded leading dimension"""
+    import torch
+
+    out = {}
+    for k, v in t.items():
+        if not isinstance(v, torch.Tensor) or not v.is_floating_point() or v.dim() == 0:
+            out[k] = v
+            continue
+        if layout == "noncontiguous":
+            if v.dim() >= 2:
+                w = v.transpose(-1, -2).contiguous().transpose(-1, -2)
+            else:
+                w = v.repeat_interleave(2)[::2]
+            assert torch.equal(w, v)
+            out[k] = w
+        else:
+            # expanded: only where the leading dim can be produced by expand (all rows equal) -> make it so
+            if v.dim() >= 2 and k == "input":
+                w = v[:1].expand(v.shape)
+                out[k] = w
+            else:
+                out[k] = v
+    return out
+
+
+def probe(op: Op, cfg: Dict[str, Any], seed: int, draws: int = 2, gdraws: int = 2, layout: str = "") -> Dict[str, Any]:
     """Returns {"skipped": reason} | {"unit_exc": exc} | {"draws": [...]}; every draw holds the
     forward scalar/residual, per-input backward scalars/residuals for each upstream-gradient
     draw, shape/dtype agreement, modification flags and a repeated-call comparison."""
@@ -84,7 +113,12 @@ def probe(op: Op, cfg: Dict[str, Any], seed: int, draws: int = 2, gdraws: int = 
         except Exception as e:  # noqa  (builder could not make this config: outside the lattice)
             return {"skipped": f"build:{type(e).__name__}"}
         diff = diff_names(op, t, cfg)
-        tu, tr = _clone_inputs(t, diff), _clone_inputs(t, diff)
+        if layout:
+            t = relayout(t, layout)
+            tu = {k: (v.detach().requires_grad_(k in diff) if isinstance(v, torch.Tensor) and v.is_floating_point() else v) for k, v in relayout(_clone_inputs(t, []), layout).items()}
+            tr = {k: (v.detach().requires_grad_(k in diff) if isinstance(v, torch.Tensor) and v.is_floating_point() else v) for k, v in relayout(_clone_inputs(t, []), layout).items()}
+        else:
+            tu, tr = _clone_inputs(t, diff), _clone_inputs(t, diff)
         def _ver(v: Any) -> Any:
             try:
                 return v._version
